@@ -46,6 +46,20 @@ fn emulated(sig: i32, ctx: usize, e: &mut Emit) {
             let r = signal_hook::low_level::emulate_default_handler(sig);
             e.line(&format!("ret={}", match r { Ok(()) => "ok".to_string(), Err(er) => format!("err({})", er.raw_os_error().unwrap_or(-1)) }));
         }
+        3 | 4 => {
+            // through flag::register_conditional_default with the condition true (3) / false (4)
+            let cond = std::sync::Arc::new(std::sync::atomic::AtomicBool::new(ctx == 3));
+            match std::panic::catch_unwind(|| signal_hook::flag::register_conditional_default(sig, cond)) {
+                Ok(Ok(_)) => {
+                    unsafe {
+                        libc::raise(sig);
+                    }
+                    e.line("ret=ok");
+                }
+                Ok(Err(er)) => e.line(&format!("ret=err({})", er.raw_os_error().unwrap_or(-1))),
+                Err(_) => e.line("ret=refused-panic"),
+            }
+        }
         _ => {
             let unb = ctx == 2;
             let reg_r = unsafe {
@@ -100,8 +114,11 @@ pub fn run(_tier: Tier) -> BResult {
     let mut cells: Vec<(i32, usize, bool)> = Vec::new();
     for &s in &sigs {
         cells.push((s, 0, false));
-        for c in 0..3 {
+        for c in 0..5 {
             if c > 0 && (s == libc::SIGKILL || s == libc::SIGSTOP || s < 1 || s > 64) {
+                continue;
+            }
+            if c >= 3 && forbidden(s) {
                 continue;
             }
             cells.push((s, c, true));
@@ -110,12 +127,12 @@ pub fn run(_tier: Tier) -> BResult {
     // The probes run inside a process group that is not orphaned: an intermediate child makes a
     // new group while its parent (this checker) stays in the old group of the same session.
     let cells2 = cells.clone();
-    let outer = run_cells(1, 1, Duration::from_secs(120), move |_, e| {
+    let outer = run_cells(1, 1, Duration::from_secs(600), move |_, e| {
         unsafe {
             libc::setpgid(0, 0);
         }
         let cells3 = cells2.clone();
-        let inner = run_cells(cells2.len(), 8, Duration::from_secs(5), move |i, e2| {
+        let inner = run_cells(cells2.len(), 8, Duration::from_secs(20), move |i, e2| {
             let (s, c, emu) = cells3[i];
             if emu {
                 emulated(s, c, e2)
@@ -149,7 +166,7 @@ pub fn run(_tier: Tier) -> BResult {
         }
     }
     let native_of = |s: i32| -> Option<String> { cells.iter().position(|c| c.0 == s && !c.2).map(|i| res[i].0.clone()) };
-    let ctxn = ["normal context", "inside the signal's own action (signal blocked)", "inside its own action after unblocking it"];
+    let ctxn = ["normal context", "inside the signal's own action (signal blocked)", "inside its own action after unblocking it", "a delivery with register_conditional_default armed (condition true)", "a delivery with register_conditional_default not armed (condition false)"];
     for (i, &(s, c, emu)) in cells.iter().enumerate() {
         if !emu {
             continue;
@@ -163,6 +180,11 @@ pub fn run(_tier: Tier) -> BResult {
             samples.push(case.clone());
         }
         match known {
+            Some(_) if c == 4 => {
+                if class != "continues" {
+                    violations.push(BViolation { message: format!("C16: register_conditional_default({}) with a false condition: the process {} on delivery (must simply continue)", s, class), case: case.clone() });
+                }
+            }
             Some(name) => {
                 let nat = native_of(s).unwrap_or_default();
                 if *class != nat {
@@ -173,6 +195,9 @@ pub fn run(_tier: Tier) -> BResult {
                 }
             }
             None => {
+                if c >= 3 && ret == "ok" {
+                    violations.push(BViolation { message: format!("C16: register_conditional_default({}) accepted a signal without a known default", s), case: case.clone() });
+                }
                 if class != "continues" || !ret.starts_with("err") {
                     if !(ret == "unregistrable") {
                         violations.push(BViolation { message: format!("C16: emulate_default_handler({}) for a signal without a known name: returned {} and the process {}", s, ret, class), case: case.clone() });
